@@ -184,6 +184,43 @@ class GramEval:
         return outs
 
 
+def spelling_table(E, nt, depth=0):
+    """[(terminal spelling, emitted text or None, production)] of a keyword table: a nonterminal whose alternatives are
+    single terminals with a text value, possibly reached through wrapper alternatives that consist of one nonterminal
+    and pass its value on (`<m:inner> => m.to_owned()`).  The values are computed by the action evaluator, so
+    `"jb".to_owned()`, `String::from("jb")` and a `&'static str` handed through a wrapper are the same."""
+    out = []
+    G = E.G
+    if depth > 4 or nt not in G.nts:
+        return out
+    for k, p in enumerate(G.productions(nt)):
+        terms = [s["name"].strip('"') for s in p["symbols"] if s["t"] == "term"]
+        nts = [(i, s["name"]) for i, s in enumerate(p["symbols"]) if s["t"] == "nt"]
+
+        def lit(v):
+            if isinstance(v, Res):
+                v = v.ok
+            if isinstance(v, Str) and len(v.t) == 1:
+                t = next(iter(v.t))
+                if all(part[0] == "lit" for part in t):
+                    return "".join(part[1] for part in t)
+            return None
+        if len(terms) == 1 and not nts:
+            vals = {lit(q.ret) for q in E.prod_paths(nt, k)}
+            out.append((terms[0], vals.pop() if len(vals) == 1 else None, p))
+        elif len(nts) == 1 and not terms:
+            i, inner = nts[0]
+            for sp, val, p_in in spelling_table(E, inner, depth + 1):
+                if val is None:
+                    out.append((sp, None, p_in))
+                    continue
+                vals = {lit(q.ret) for q in E.prod_paths_with(nt, k, {i: Str.lit(val)})}
+                out.append((sp, vals.pop() if len(vals) == 1 else None, p_in))
+        else:
+            out.append((None, None, p))
+    return out
+
+
 def expand_templates(strval, limit=400000):
     """all templates of a Str value as lists of parts"""
     return list(strval.t)
